@@ -171,9 +171,16 @@ def iterate_ds(ds, r):
                 walk2(ch["shard_list_info_file"]["file_path"])
         walk2(info["splits"][split]["shard_list_info_file"]["file_path"])
         outs = []
-        for fv in r["filters"]:
+        seq = r.get("seq") or [{"filter": fv} for fv in r["filters"]]
+        for o in seq:
+            fv = o.get("filter")
+            kw3 = {"split": split, "shard_filter": (None if fv is None else (lambda s, fv=fv: int(s.custom_metadata.get("k", 0)) == fv))}
+            if o.get("shards") is not None:
+                kw3["shards"] = o["shards"]
+            if o.get("limit") is not None:
+                kw3["custom_metadata_type_limit"] = o["limit"]
             try:
-                outs.append([allp.index(p) for p in ds.shard_paths_dataset(split=split, shard_filter=(None if fv is None else (lambda s, fv=fv: int(s.custom_metadata.get("k", 0)) == fv)))])
+                outs.append([allp.index(p) for p in ds.shard_paths_dataset(**kw3)])
             except ValueError:
                 outs.append("error")
         return outs
